@@ -87,7 +87,7 @@ func allocDelta(f func()) uint64 {
 
 // c42Known: listed known findings of C42 with their narrow predicates.
 type c42Known struct {
-	fc8, fc9, fc10 bool
+	fc8, fc9, fc10, fc16 bool
 }
 
 func (k c42Known) excluded(v cadence.Value, static cadence.Type, in *vgen.Info) string {
@@ -98,6 +98,8 @@ func (k c42Known) excluded(v cadence.Value, static cadence.Type, in *vgen.Info) 
 		return "FC9"
 	case k.fc10 && ccfOptionalAmbiguity(v, static):
 		return "FC10"
+	case k.fc16 && attachmentBaseCycle(v):
+		return "FC16"
 	}
 	return ""
 }
@@ -256,6 +258,28 @@ func hasDuplicateParameterLabels(v cadence.Value) bool {
 	return found
 }
 
+// attachmentBaseCycle: some type value contains an attachment type whose base
+// type (transitively) mentions that attachment again (predicate of FC16).
+func attachmentBaseCycle(v cadence.Value) bool {
+	var ts []cadence.Type
+	typeValueTypes(v, &ts)
+	found := false
+	for _, t := range ts {
+		vgen.WalkTypes(t, func(x cadence.Type) {
+			at, ok := x.(*cadence.AttachmentType)
+			if !ok || at.BaseType == nil {
+				return
+			}
+			vgen.WalkTypes(at.BaseType, func(y cadence.Type) {
+				if y == cadence.Type(at) {
+					found = true
+				}
+			})
+		})
+	}
+	return found
+}
+
 // typeValueTypes lists the types in type-value positions (type values and
 // function values) anywhere in v.
 func typeValueTypes(v cadence.Value, out *[]cadence.Type) {
@@ -305,6 +329,13 @@ func reportC42Known(rec *evid.Rec) c42Known {
 			[]cadence.Parameter{{Identifier: "a", Type: cadence.IntType}, {Identifier: "b", Type: cadence.IntType}}, cadence.VoidType)
 		e := ccfEncodeWith(ccfDefaultEnc, cadence.NewTypeValue(ft))
 		rec.ReportKnown("FC9", e.err == nil && ccfDecodeWith(ccfDefaultDec, e.bytes).err != nil)
+	}
+	if rec.Known("FC16") {
+		k.fc16 = true
+		a := cadence.NewAttachmentType(nil, "PublicKey", nil, nil, nil)
+		a.BaseType = cadence.NewStructType(nil, "AccountKey", []cadence.Field{{Identifier: "a", Type: cadence.NewOptionalType(a)}}, nil)
+		e := ccfEncodeWith(ccfDefaultEnc, cadence.NewTypeValue(a))
+		rec.ReportKnown("FC16", e.err == nil && ccfDecodeWith(ccfDefaultDec, e.bytes).err != nil)
 	}
 	if rec.Known("FC10") {
 		k.fc10 = true
@@ -477,7 +508,7 @@ func TestC42(t *testing.T) {
 		}
 	})
 	rec.Extra("max_alloc_bytes_single_decode", maxAlloc)
-	if evid.ReplayFile() == "" {
+	if !replaying() {
 		rec.RequireClasses(t, "value/Type", "value/Capability", "value/Dictionary", "value/Struct", "value/Enum", "type/Intersection",
 			"strict/unsorted-fields", "strict/unsorted-intersection", "strict/unsorted-entitlements", "strict/sorted-input",
 			"swap/dict-pairs", "swap/typedefs", "swap/intersection", "swap/entitlements", "swap/fields", "mutant/accepted", "mutant/rejected")
